@@ -147,6 +147,27 @@ def case_fn(case):
                  f"{np.max(np.abs(after['tip position'] - exp)):.3e}")
     if only_smooth:
         return _smooth_part(case, idnt, out, viol, common, apply, nchecks)
+    # 1b. the same step when the heights were smoothed before it
+    if "tip position" not in idnt.columns_innate:
+        try:
+            apply(["smooth_height"])
+            before = snapshot(idnt)
+            apply(["smooth_height", "compute_tip_position"])
+            after = snapshot(idnt)
+            common("compute_tip_position:after-smooth", before, after,
+                   {"tip position"}, created={"tip position"})
+            exp = before["height (measured)"] + before["force"] / k
+            nchecks += 1
+            if not np.array_equal(after["tip position"], exp):
+                viol("tip-separation", "compute_tip_position:after-smooth",
+                     "tip position != height (measured) + force / k when "
+                     "smooth_height ran first")
+        except BaseException as e:
+            if isinstance(e, (KeyboardInterrupt, SystemExit, MemoryError)):
+                raise
+            viol("step-raises", "compute_tip_position:after-smooth", repr(e))
+        apply(T)
+        after = snapshot(idnt)
     # 2. force offset
     before = after
     apply(T + ["correct_force_offset"])
